@@ -51,11 +51,10 @@ P = {
          "No closed soundness theorem yet for Eisel-Lemire/Bellerophon; per-q table facts proved (C14). The stage is called directly on "
          "closest approaches, algebraic ties, all-ones fallback witnesses for every q and judged against exact rationals; correspondence is "
          "refinement (impl may decline more).", PROOF_AX),
- 'C12': ('other', 'Coq induction over limb lists (value of result = operation on naturals) + limb-for-limb correspondence',
-         "Theorems in props/C12.v over the list-of-limbs model; both back-ends run on carry-chain patterns at and one limb past capacity.", PROOF_AX),
- 'C13': ('other', 'Coq refinement of the vector model to a bounded sequence over all histories + history correspondence',
-         "Step-wise refinement lifted to all operation histories by induction (fold_left); histories with fill/shrink/regrow phases run on "
-         "StackVec and HeapVec and compared step by step.", PROOF_AX),
+ 'C12': ('proof', 'Coq: induction over limb lists - value of the result = the operation on naturals, None <-> result does not fit (37 theorems) + limb-for-limb correspondence on both back-ends',
+         "Closed theorems (props/C12.v, no axioms) over the list-of-limbs model for every operation the property lists: small add/mul, large add, long/large mul, pow by 5/10 (135/27/table decomposition, on the regenerated tables, compact and non-compact), shifts, compare, normalise, bit length, hi64 + sticky flag, from_u64; for the fixed-capacity back-end failure is reported exactly when B64^62 <= exact result (normalised operands), and the state left behind by a failed small op is characterised. Hold for arbitrary build mode. The model is tied to the code by running both on carry-chain patterns at and one limb past capacity, both back-ends, release and checked builds, and against Python integers.", PROOF_AX),
+ 'C13': ('proof', 'Coq: refinement of a cell-level model of StackVec (62 MaybeUninit cells + u16 length, raw writes/copies/set_len with UB outcomes) to a bounded sequence, lifted to all histories by induction + history correspondence of both models with the code',
+         "Closed theorems (props/C13.v, no axioms): every operation of the safe API from a state satisfying the invariant (len <= 62, prefix initialised) returns Ok (never UB), preserves the invariant and yields the output and contents of the reference sequence; failed push/extend/resize leave the state unchanged; lifted to all finite histories from new() (fold over the op list), both build modes; eq/cmp agree with numeric comparison for normalised operands. The cell-level model itself is extracted and replayed against the real StackVec on every run (contents after every step), the list-level model against StackVec and HeapVec. Arbitrary-limb, arbitrary-length histories; the heap vector is covered at list level (never fails).", PROOF_AX),
  'C14': ('proof', 'Coq: vm_compute over the regenerated tables (finite domain, forallb lifted by forallb_forall)',
          "Every table entry and on-demand power is re-dumped from the compiled crate on every run, translated to Coq and checked against its "
          "mathematical definition by the kernel (8 closed theorems, no axioms). Finite domain, so this is a proof about the data the code uses.",
@@ -66,11 +65,10 @@ P = {
  'C16': ('other', 'Coq model is a function of the byte lists by construction + iterator-shape / history / thread differential',
          "Partial by nature: a Gallina function cannot depend on addresses or schedules; the check feeds every input through 10 iterator "
          "shapes, stack-poisoning histories and 16 threads on the real code and compares bit for bit.", PROOF_AX),
- 'C17': ('other', 'Coq theorems over all bit patterns of the regenerated format constants + correspondence',
-         "Field helpers proved for every bit pattern (props/C17.v), constants regenerated from the compiled crate; all 2^32 f32 patterns on the "
-         "real code in the thorough tier.", PROOF_AX),
- 'C18': ('other', 'Coq theorem linking the rounding primitive to Flocq round-to-nearest-even + correspondence on every exponent',
-         "round + round_nearest_tie_even proved equal to the Z-level nearest-even shift for all significands/exponents in range (props/C18.v).", PROOF_AX),
+ 'C17': ('proof', 'Coq: theorems generic in the format record under a boolean side condition discharged on the regenerated F32/F64 constants (25 theorems, all bit patterns) + agreement with the IEEE-754 decoder of Flocq + correspondence',
+         "Closed theorems (props/C17.v) for every bit pattern 0 <= x < 2^fbits (no enumeration: generic in the format, side condition fmt_ok computed on the constants dumped from the compiled crate): subnormal detection, exponent(), mantissa(), mantissa*2^exponent = magnitude (as the decoded SpecFloat value, and as Flocq B2R of Flocq's own binary_float_of_bits), to_bits/from_bits lossless, packing (biased exponent, fraction) incl. the overlapping hidden bit, b / b+h, order of patterns = order of values. Both build modes. Code tied by L1f correspondence (all 2^32 f32 patterns in the thorough tier).", PROOF_AX),
+ 'C18': ('proof', 'Coq: closed form of round / round_nearest_tie_even / round_down over Z, then equality with Flocq round-to-nearest-even (and Zfloor) on FLT and with the oracle RN, for all significands and exponents in range (20 theorems) + correspondence on every exponent',
+         "Theorems (props/C18.v): for every significand in [2^63,2^64), every biased exponent in [-63,2^30] (covers [-63,2100]/[-63,320]), any build mode: round + round_nearest_tie_even never panics and its packed result equals RN f (significand*2^(exp-bias)) [C18_round_nearest_RN], equals Flocq round ZnearestE / SpecFloat.binary_normalize, incl. subnormals, promotion to the smallest normal, carry, overflow; truncating variant = Flocq Zfloor rounding below 2^emax and the infinity fields from 2^emax on (this deviation from 'largest float not above' is KNOWN_FINDINGS F3, proved as C18_round_down_correct); mask helpers for all widths 0..64. Format constants are the regenerated ones via rfmt_ok. Code tied by L1r correspondence on every exponent x 10-40 significand patterns.", PROOF_AX),
  'C19': ('other', 'Coq theorems on the lexer model + correspondence on the four shipped front-end copies',
          "Lexer decomposition / exponent saturation theorems; the repository's own front-end files are compiled into the harness (not transcribed) "
          "and diffed against the model on grammar-derived and arbitrary byte strings.", PROOF_AX),
